@@ -460,6 +460,17 @@ def walk_no_nested(node: ast.AST) -> Iterator[ast.AST]:
     stack.extend(reversed(list(ast.iter_child_nodes(n))))
 
 
+def plain_copies(fn: ast.AST, name: str) -> set[str]:
+  """`name` and every local that is bound to it by a plain copy (`b = a`, transitively, two levels)."""
+  same = {name}
+  for _ in range(2):
+    for x in walk_no_nested(fn):
+      if isinstance(x, ast.Assign) and len(x.targets) == 1 and isinstance(x.targets[0], ast.Name) and isinstance(x.value, ast.Name) \
+          and x.value.id in same:
+        same.add(x.targets[0].id)
+  return same
+
+
 def calls_in(node: ast.AST, nested: bool = False) -> list[ast.Call]:
   it = ast.walk(node) if nested else walk_no_nested(node)
   return [n for n in it if isinstance(n, ast.Call)]
